@@ -118,6 +118,10 @@ func TestVerif_C02_ReadAuth(t *testing.T) {
 	defer tw.Close()
 	full := os.Getenv("VERIF_C02_FLAGS") == "full"
 	blipRun := os.Getenv("VERIF_C02_BLIP") == "1" // replication-protocol surfaces instead of the REST ones
+	blipAlso := 0                                 // "also:N": REST surfaces for every case plus the replication protocol for the first N cases
+	if v := os.Getenv("VERIF_C02_BLIP"); strings.HasPrefix(v, "also:") {
+		blipAlso = vC02Atoi(v[5:], 0)
+	}
 	defaultColl := os.Getenv("VERIF_C02_DEFAULT_COLLECTION") == "1"
 	rnd := vRand()
 
@@ -162,20 +166,26 @@ func TestVerif_C02_ReadAuth(t *testing.T) {
 	runPass := func(pass string) {
 		for _, in := range insts {
 			in.realCur = vC02RealCurrent(t, rt, in)
+			if pass == "warm" {
+				vC02Warm(t, rt, in) // again right before the case's reads: every revision id / CV is resident now
+			}
 			tw.Emit(vC02CaseLine(in, pass))
 			us := append([]string{}, in.users...)
 			rnd.Shuffle(len(us), func(a, b int) { us[a], us[b] = us[b], us[a] })
 			for _, u := range us {
-				if blipRun {
-					for _, ev := range vC02Blip(t, rt, in, pass, u) {
-						tw.Emit(ev)
+				if !blipRun {
+					for _, rd := range vC02Reads(in, full, rnd) {
+						tw.Emit(vC02Do(t, rt, in, pass, u, rd))
 						nReads++
 					}
-					continue
 				}
-				for _, rd := range vC02Reads(in, full, rnd) {
-					tw.Emit(vC02Do(t, rt, in, pass, u, rd))
-					nReads++
+				if blipRun || in.idx < blipAlso {
+					for _, pr := range vC02BlipProtos {
+						for _, ev := range vC02Blip(t, rt, in, pass, u, pr) {
+							tw.Emit(ev)
+							nReads++
+						}
+					}
 				}
 			}
 		}
@@ -781,8 +791,23 @@ func vC02Parts(contentType string, raw []byte, depth int, f func(map[string]any)
 //	BlipGetAttachment  getAttachment for the attachment digest of EVERY revision of the document, asked while the rev message is
 //	                   being handled (the only time the per-connection allow-list can contain it) and again afterwards
 //	BlipGetRev         connected-client getRev of the document
-func vC02Blip(t *testing.T, rt *RestTester, in *vC02Inst, pass, u string) []vObj {
-	spec := &BlipTesterSpec{}
+type vC02BlipProto struct {
+	name        string
+	subprotocol db.CBMobileSubprotocolVersion
+	revocations bool // subChanges revocations=true
+	removals    bool // the gateway announces plain channel removals to this puller (v2 always, v3+ with revocations=true)
+}
+
+var vC02BlipProtos = []vC02BlipProto{
+	{"v4+revocations", db.CBMobileReplicationV4, true, true},
+	{"v3", db.CBMobileReplicationV3, false, false},
+	{"v2", db.CBMobileReplicationV2, false, true},
+	{"v3+revocations", db.CBMobileReplicationV3, true, true},
+	{"v4+revocations", db.CBMobileReplicationV4, true, true},
+}
+
+func vC02Blip(t *testing.T, rt *RestTester, in *vC02Inst, pass, u string, pr vC02BlipProto) []vObj {
+	spec := &BlipTesterSpec{blipProtocols: []string{pr.subprotocol.SubprotocolString()}}
 	if u != "g" {
 		spec.connectingUsername = in.pre + u
 	}
@@ -822,7 +847,9 @@ func vC02Blip(t *testing.T, rt *RestTester, in *vC02Inst, pass, u string) []vObj
 			rq := blip.NewRequest()
 			rq.SetProfile(db.MessageGetAttachment)
 			rq.Properties[db.GetAttachmentDigest] = in.digest[r.ID]
-			rq.Properties[db.GetAttachmentID] = in.docID
+			if pr.subprotocol >= db.CBMobileReplicationV3 {
+				rq.Properties[db.GetAttachmentID] = in.docID
+			}
 			bt.addCollectionProperty(rq)
 			if !bt.sender.Send(rq) {
 				t.Errorf("VERIF-FATAL blip send getAttachment failed")
@@ -835,7 +862,7 @@ func vC02Blip(t *testing.T, rt *RestTester, in *vC02Inst, pass, u string) []vObj
 				st = vC02Atoi(rs.Properties[db.BlipErrorCode], 500)
 			}
 			_, am := scan(append([]byte(props(rs)), body...))
-			ev := vObj{"a": "Read", "c": in.idx, "pass": pass, "surf": "BlipGetAttachment", "fl": vObj{"during": during}, "u": u, "rev": r.ID, "st": st,
+			ev := vObj{"a": "Read", "c": in.idx, "pass": pass, "surf": "BlipGetAttachment", "fl": vObj{"during": during, "proto": pr.name}, "u": u, "rev": r.ID, "st": st,
 				"mk": []string{}, "am": am, "ents": []vObj{}, "listed": false, "foreign": []string{}, "rq": "getAttachment " + in.digest[r.ID]}
 			mu.Lock()
 			attEvents = append(attEvents, ev)
@@ -892,19 +919,22 @@ func vC02Blip(t *testing.T, rt *RestTester, in *vC02Inst, pass, u string) []vObj
 			rev := "?"
 			if m, ok := in.model[rq.Properties[db.RevMessageRev]]; ok {
 				rev = m
+				if last := in.c.Revs[len(in.c.Revs)-1].ID; !base.IsRevTreeID(rq.Properties[db.RevMessageRev]) && m == last {
+					rev = in.realCur // a version vector names the document's last write; the body that travels is the current revision's
+				}
 			}
-			pr := []string{}
+			pn := []string{}
 			var m map[string]any
 			if !isNoRev && json.Unmarshal(body, &m) == nil {
 				for k := range m {
-					pr = append(pr, k)
+					pn = append(pn, k)
 				}
 			}
 			if rq.Properties[db.RevMessageDeleted] != "" {
-				pr = append(pr, "_deleted")
+				pn = append(pn, "_deleted")
 			}
-			sort.Strings(pr)
-			revEnts = append(revEnts, vObj{"rev": rev, "props": pr, "err": isNoRev, "own": rq.Properties[db.RevMessageID] == in.docID, "from": rq.Profile()})
+			sort.Strings(pn)
+			revEnts = append(revEnts, vObj{"rev": rev, "props": pn, "err": isNoRev, "own": rq.Properties[db.RevMessageID] == in.docID, "from": rq.Profile(), "asked": rq.Properties[db.RevMessageRev]})
 			gotRev = gotRev || !isNoRev
 			mu.Unlock()
 			if !isNoRev {
@@ -923,6 +953,9 @@ func vC02Blip(t *testing.T, rt *RestTester, in *vC02Inst, pass, u string) []vObj
 	sub.SetProfile(db.MessageSubChanges)
 	sub.Properties[db.SubChangesContinuous] = "false"
 	sub.Properties[db.SubChangesSince] = fmt.Sprint(in.seq0)
+	if pr.revocations {
+		sub.Properties[db.SubChangesRevocations] = "true"
+	}
 	bt.addCollectionProperty(sub)
 	if !bt.sender.Send(sub) {
 		t.Fatalf("VERIF-FATAL blip send subChanges failed")
@@ -955,16 +988,16 @@ func vC02Blip(t *testing.T, rt *RestTester, in *vC02Inst, pass, u string) []vObj
 	if grSt == 200 {
 		var m map[string]any
 		if json.Unmarshal(grBody, &m) == nil {
-			pr := []string{}
+			pn := []string{}
 			for k := range m {
-				pr = append(pr, k)
+				pn = append(pn, k)
 			}
-			sort.Strings(pr)
+			sort.Strings(pn)
 			rev := "?"
 			if mr, ok := in.model[grs.Properties[db.GetRevRevId]]; ok {
 				rev = mr
 			}
-			grEnts = append(grEnts, vObj{"rev": rev, "props": pr, "err": false, "own": true, "from": "getRev"})
+			grEnts = append(grEnts, vObj{"rev": rev, "props": pn, "err": false, "own": true, "from": "getRev"})
 		}
 	}
 
@@ -975,13 +1008,13 @@ func vC02Blip(t *testing.T, rt *RestTester, in *vC02Inst, pass, u string) []vObj
 	rmk, ram := scan(revRaw.Bytes())
 	gmk, gam := scan(append([]byte(props(grs)), grBody...))
 	evs := []vObj{
-		{"a": "Read", "c": in.idx, "pass": pass, "surf": "BlipChanges", "fl": vObj{}, "u": u, "rev": "", "st": subSt, "mk": cmk, "am": cam, "ents": []vObj{},
-			"listed": listed, "foreign": vC02Uniq(foreign), "rq": fmt.Sprintf("subChanges since=%d", in.seq0)},
-		{"a": "Read", "c": in.idx, "pass": pass, "surf": "BlipRev", "fl": vObj{"delta": false}, "u": u, "rev": "", "st": subSt, "mk": rmk, "am": ram, "ents": revEnts,
+		{"a": "Read", "c": in.idx, "pass": pass, "surf": "BlipChanges", "fl": vObj{"proto": pr.name, "removals": pr.removals}, "u": u, "rev": "", "st": subSt, "mk": cmk, "am": cam, "ents": []vObj{},
+			"listed": listed, "foreign": vC02Uniq(foreign), "rq": fmt.Sprintf("subChanges(%s) since=%d", pr.name, in.seq0)},
+		{"a": "Read", "c": in.idx, "pass": pass, "surf": "BlipRev", "fl": vObj{"delta": false, "proto": pr.name, "removals": pr.removals}, "u": u, "rev": "", "st": subSt, "mk": rmk, "am": ram, "ents": revEnts,
 			"listed": false, "foreign": []string{}, "rq": "rev/norev after subChanges"},
 	}
 	evs = append(evs, attEvents...)
-	evs = append(evs, vObj{"a": "Read", "c": in.idx, "pass": pass, "surf": "BlipGetRev", "fl": vObj{}, "u": u, "rev": "", "st": grSt, "mk": gmk, "am": gam, "ents": grEnts,
+	evs = append(evs, vObj{"a": "Read", "c": in.idx, "pass": pass, "surf": "BlipGetRev", "fl": vObj{"proto": pr.name}, "u": u, "rev": "", "st": grSt, "mk": gmk, "am": gam, "ents": grEnts,
 		"listed": false, "foreign": []string{}, "rq": "getRev " + in.docID})
 	return evs
 }
